@@ -115,6 +115,12 @@ def run_impl(case):
     t, f = split(source, cond)
     outs = []
     for ch in case['ops']:
+        if ch == 'x':           # the caller abandons the true side (drops its last reference to the iterator) ...
+            t = None
+            continue
+        if ch == 'y':           # ... or the false side; the other side is not affected
+            f = None
+            continue
         it = t if ch == 'T' else f
         try:
             v = next(it)
@@ -125,7 +131,7 @@ def run_impl(case):
 
 
 def model_line(case):
-    s = f"split kind={case['kind']} src={','.join(map(str, case['src']))} ops={case['ops']}"
+    s = f"split kind={case['kind']} src={','.join(map(str, case['src']))} ops={case['ops'].replace('x', '').replace('y', '')}"
     if case['kind'] == 'callable':
         s += ' tab=' + ';'.join(','.join(map(str, r)) for r in case['tab'])
     else:
@@ -228,6 +234,11 @@ def gen_cases(ctx):
         ln = rng.randint(0, n + 4)
         bias = rng.choice([0.5, 0.5, 0.9, 0.1])
         case['ops'] = ''.join('T' if rng.random() < bias else 'F' for _ in range(ln))
+        if ln and rng.random() < 0.25:
+            # one side is abandoned part-way: nothing more is asked of it, the other side goes on
+            side, mark_ = rng.choice([('T', 'x'), ('F', 'y')])
+            at = rng.randint(0, ln)
+            case['ops'] = case['ops'][:at] + mark_ + case['ops'][at:].replace(side, '')
         yield case
 
 
